@@ -32,7 +32,7 @@ VARIABLES l,          \* next line
           hq,         \* ids of the helper outputs not yet read (parallel to hlpQ)
           fwdIds,     \* chunks written to a live helper
           got,        \* chunk ids the puppet reported
-          echo,       \* [start, gone, hexit, expectCan, gotCan, late]
+          echo,       \* [start, gone, hexit, expectCan, gotCan, late, hcur]
           stuck       \* [line, nocmd] of the first Stuck quiet point of this run (line 0: none)
 
 tv == <<l, run, pend, ipend, hq, fwdIds, got, echo, stuck>>
@@ -42,7 +42,7 @@ NoPend == [st |-> "none", k |-> "none", v |-> "none", start |-> "ok", id |-> 0, 
            cur |-> "same", seen |-> <<>>]
 NoIPend == [st |-> "none", k |-> "none", id |-> 0, disp |-> "none"]
 Echo0 == [start |-> FALSE, gone |-> FALSE, hexit |-> FALSE, expectCan |-> FALSE, gotCan |-> FALSE,
-          late |-> FALSE]
+          late |-> FALSE, hcur |-> 0]
 NoStuck == [line |-> 0, nocmd |-> FALSE]
 
 Ev == TraceLog[l]
@@ -84,7 +84,7 @@ TSrvDo ==
     /\ Keep(<<run, ipend, hq, fwdIds, got, echo, stuck>>)
 
 TSrvDone ==
-    /\ IsEvent("srvdone") /\ pend.st = "done" /\ Ev.id = pend.id
+    /\ IsEvent("srvdone") /\ pend.st = "done" /\ Ev.id = pend.id /\ pcS = "idle"
     /\ Ev.disp = pend.disp
     /\ pend.seen = (IF pend.cur = "same" THEN <<>> ELSE <<pend.cur>>)
     /\ fwdIds' = IF pend.fwd THEN fwdIds \cup {pend.id} ELSE fwdIds
@@ -129,17 +129,21 @@ TCan ==
 TCr == /\ IsEvent("tsrv") /\ Ev.c = "cr" /\ CleanupWrite
        /\ Keep(<<run, pend, ipend, hq, fwdIds, got, echo, stuck>>)
 
-(* ensureOverAndOut writes OO *before* the chunk that completed the pair is forwarded: the echo may  *)
-(* precede the step (ReadFwd of the helper's fin) that sets the second flag.                        *)
-OOok == srvFin /\ (cliFin \/ (pcE = "read" /\ hlpQ # <<>> /\ Head(hlpQ) = "fin" /\ ~errOcc))
+(* ensureOverAndOut: both sides have sent their ZFIN *)
+OOok == srvFin /\ cliFin
 TOO == /\ IsEvent("tsrv") /\ Ev.c = "oo" /\ up /\ OOok
        /\ UNCHANGED vars /\ Keep(<<run, pend, ipend, hq, fwdIds, got, echo, stuck>>)
 
 THoutFwd ==
     /\ IsEvent("tsrv") /\ Ev.c = "hout"
-    /\ hq # <<>> /\ Head(hq) = Ev.id /\ hq' = Tail(hq)
-    /\ ReadFwd
-    /\ Keep(<<run, pend, ipend, fwdIds, got, echo, stuck>>)
+    /\ echo.hcur = Ev.id
+    /\ FwdWrite
+    /\ Keep(<<run, pend, ipend, hq, fwdIds, got, echo, stuck>>)
+
+TReadFwd ==
+    /\ Silent /\ More /\ ReadFwd
+    /\ echo' = [echo EXCEPT !.hcur = Head(hq)] /\ hq' = Tail(hq)
+    /\ Keep(<<run, pend, ipend, fwdIds, got, stuck>>)
 
 (* ---- messages ---- *)
 HzeCauses == {"stopped", "runfail", "choosefail", "readerr", "ctimeout", "stimeout"}
@@ -188,7 +192,7 @@ THin ==
 TSilent ==
     /\ Silent /\ More
     /\ \/ EInit \/ Sleep100 \/ Launch \/ LaunchFail \/ ReadEOF \/ ReadErr \/ Break
-       \/ WaitReturns \/ WStore \/ WArm \/ Kill \/ CleanupFires
+       \/ WaitReturns \/ WStore \/ WArm \/ Kill \/ CleanupFires \/ Rearm
        \/ ClientTimerFires \/ ServerTimerFires
     /\ hq' = IF pcE = "read" /\ pcE' \in {"brk", "hze"} /\ hlpQ' = <<>> THEN <<>> ELSE hq
     /\ Keep(<<run, pend, ipend, fwdIds, got, echo, stuck>>)
@@ -221,7 +225,7 @@ TQuiet ==
 
 TNext == TReset \/ TSrv \/ TSrvDo \/ TSrvDone \/ TCur \/ TInp \/ TInBeginSilent \/ TInCheck \/ TInpDone
          \/ TCan \/ TCr \/ TOO \/ THoutFwd \/ TMsg \/ THout \/ THexit \/ THstart \/ THgone \/ THin
-         \/ TSilent \/ TLaunch \/ THzeCmd \/ TReadIgnore \/ TQuiet
+         \/ TSilent \/ TLaunch \/ THzeCmd \/ TReadIgnore \/ TReadFwd \/ TQuiet
 
 TSpec == TInit /\ [][TNext]_tvars
 
